@@ -25,6 +25,9 @@ def run(ctx):
         "packetConn is an in-memory FIFO (c35conn) observed at writePacket entry / readPacket return under one lock: a true linearization",
         "one concurrent writer per stream (data, stderr, one extended code > 1) per channel direction, i.e. up to 3 concurrent writers per "
         "window; concurrent Write calls on the SAME stream are outside WriteExtended's contract (shared packet buffer) and are not driven",
+        "one forced schedule per run family: on a receiver with an exhausted 2 MiB window the goroutine that wrote a window adjust is "
+        "held by the transport right after delivery (c35conn AfterWrite gate) until the peer's responding data has been handled by "
+        "the receiver's read loop; other positions of the reader relative to the loop are left to the Go scheduler",
         "quiescence is decided by testing/synctest (all goroutines durably blocked), never by a timer",
         "window state accessors of hook ssh/verif_mux.go read remoteWin.win, myWindow, myConsumed under their own locks",
     ]
@@ -46,6 +49,12 @@ def run(ctx):
         if r.coverage_zero:
             ctx.notes.append("actions never taken in %s: %s" % (name, r.coverage_zero))
 
+    # sensitivity: a receiver that credits myWindow only after the window adjust has been written must be rejected by the model
+    r = ctx.tlc("SSHChannel_MC", cfg="SSHChannel_CreditAfterSend.cfg", timeout=900, expect_violation=True, count=False)
+    if not r.violated:
+        raise vlib.Infra("model is insensitive: CreditFirst=FALSE variant satisfies NoError/SenderWithinWindow")
+    ctx.notes.append("CreditFirst=FALSE variant (credit after send): TLC reports violation of %s" % r.violated)
+
     runs = [(False, ctx.pick(3, 8), ctx.pick(30, 100))]
     if ctx.thorough:
         runs.append((True, 3, 40))            # with the race detector
@@ -53,12 +62,16 @@ def run(ctx):
     for race, n_real, n_raw in runs:
         tp = ctx.tmp("c35_traces_%d.ndjson" % int(race))
         res = ctx.go_test("c35", "TestRecord", env={"VERIF_TRACE_OUT": tp, "VERIF_C35_REAL": n_real, "VERIF_C35_RAW": n_raw,
-                                                      "VERIF_C35_SALT": int(race)},
+                                                      "VERIF_C35_SALT": int(race), "VERIF_C35_HELD": ctx.pick(2, 6)},
                           timeout=ctx.pick(300, 1500), race=race)
         if "DATA RACE" in res.get("_stdout", ""):
             ctx.violation("data-race", "the race detector reported a data race in the ssh package during channel I/O",
                           {"output": res["_stdout"][-3000:]})
         ctx.absorb(res, validated=False)
+        nh = (res.get("extra") or {}).get("held_after_adjust_schedules", 0)
+        if not res.get("violations") and nh == 0:
+            raise vlib.Infra("vacuous: the schedule 'window adjust delivered -> peer data handled by the receiver's loop -> adjust "
+                             "writer continues' was not replayed")
         traces = []
         if os.path.exists(tp):
             with open(tp) as fh:
